@@ -145,6 +145,10 @@ class Contract(object):
             env["result"] = res
             for label, e in self.ensures_:
                 ex.assume(call_named(e, env, ex))
+            for e in getattr(self, "assumed_ensures", []):
+                # a clause of the callee that is NOT proved deductively (bounded stand-in only): used, and reported
+                ex.assume(call_named(e, env, ex))
+                ex.assumptions.add("assumed (bounded, not proved) clause of %s is used by %s" % (self.short, caller))
             return res
         cls, cond = self.raises_[k - 1]
         if cond is not None:
